@@ -30,3 +30,23 @@ func short(s string) string {
 	}
 	return s
 }
+
+// specialTexts: byte strings that text "clean-ups" (TrimSpace, BOM stripping, NUL trimming, UTF-8 validation, case or
+// newline normalisation, printf-style formatting) would alter. Used whole, as prefix and as suffix of a plain text.
+var specialTexts = [][]byte{
+	{0xEF, 0xBB, 0xBF}, {0xEF, 0xBB}, {0xFE, 0xFF}, {0xFF, 0xFE}, {0x00}, {0x00, 0x00}, {' '}, {' ', ' '}, {'\t'}, {'\n'}, {'\r', '\n'}, {'\r'},
+	{0xC2, 0xA0}, {0xE2, 0x80, 0x8B}, {0xE2, 0x80, 0xA8}, {0xC3}, {0xFF}, {0x80}, {0xC0, 0x80}, {0xED, 0xA0, 0x80}, {0xF4, 0x90, 0x80, 0x80},
+	{'%', 's'}, {'%', 'd'}, {'%', '%'}, {'%'}, {'\\'}, {'\\', 'n'}, {'"'}, {'\''}, {0x7F}, {0x1B}, {0x85}, {'A'}, {'a'}, {0xC3, 0x84}, {0xC3, 0xA4},
+}
+
+// specialTextVariants returns every special string alone, before and after "Piano", and around it.
+func specialTextVariants() [][]byte {
+	var out [][]byte
+	for _, s := range specialTexts {
+		out = append(out, append([]byte{}, s...))
+		out = append(out, append(append([]byte{}, s...), "Piano"...))
+		out = append(out, append([]byte("Piano"), s...))
+		out = append(out, append(append(append([]byte{}, s...), "Pi no"...), s...))
+	}
+	return out
+}
